@@ -164,13 +164,12 @@ def check(ctx: Ctx) -> None:
         return
     fi, table, length_term, tb, recv, extras = got
     for t in extras:
-        ctx.refuted("R13.pack-extra", stmt_site(fi, t),
-                    "term of the header OR-tree that is neither a header field shift nor the length term",
-                    where=where(fi, t))
+        ctx.note(f"unrecognised term in the header expression: {norm(t)[:60]} (decided by the boundary table R13.w)")
     for f, (rs, rw) in CCSDS.items():
         site = f"{fi.key}::pack::{f}"
         if f not in table:
-            ctx.refuted("R13.pack", site, f"field {f} is not packed into the header expression", where=where(fi, recv))
+            ctx.unknown("R13.pack", site, f"field {f} not found as `name << k` in the header expression (shape not recognised; "
+                                          f"decided by the boundary table R13.w)", where=where(fi, recv))
             continue
         want = HEADER_BITS - rs - rw
         ctx.decide(table[f] == want, "R13.pack", site,
@@ -185,7 +184,7 @@ def check(ctx: Ctx) -> None:
                        where=where(fi, recv))
     # length term: len(data) - 1 at shift 0
     if length_term is None:
-        ctx.refuted("R13.length-term", f"{fi.key}::pack::length", "no len(data) term in the header expression",
+        ctx.unknown("R13.length-term", f"{fi.key}::pack::length", "no len(data) term recognised in the header expression",
                     where=where(fi, recv))
     else:
         from ..affine import AffBuilder, Aff
@@ -334,7 +333,8 @@ def witness_search(ctx: Ctx, thorough: bool):
     try:
         seen = set()
         for d in combos:
-            for ln in (lens if (thorough or d is combos[0] or d is combos[-1]) else [1, 300]):
+            allmax = all(d[f] == maxes[f] for f in d)
+            for ln in (lens if (thorough or d is combos[0] or d is combos[-1] or allmax) else [1, 300]):
                 key = (tuple(sorted(d.items())), ln)
                 if key in seen:
                     continue
